@@ -190,14 +190,26 @@ func cmdCheck(args []string) {
 			lemmaNames = append(lemmaNames, ln)
 		}
 		sort.Strings(lemmaNames)
-		for _, ln := range lemmaNames {
+		for len(lemmaNames) > 0 {
+			ln := lemmaNames[0]
+			lemmaNames = lemmaNames[1:]
 			if !seen["lemma."+ln] {
 				seen["lemma."+ln] = true
 				for _, ax := range p.Axioms {
+					if ax.Name == ln {
+						// lemmas (and axioms) a lemma itself uses belong to the proof as well
+						lemmaNames = append(lemmaNames, ax.C.Uses...)
+					}
 					if ax.Lemma && ax.Name == ln {
 						lr := verifyLemma(p, ax)
 						results = append(results, lr)
 						allObls = append(allObls, lr.Obls...)
+						for _, l := range lr.Limits {
+							limits = append(limits, "lemma."+ln+": "+l)
+						}
+						for a := range lr.Run.assumps {
+							assumptions[a] = true
+						}
 					}
 				}
 			}
